@@ -111,7 +111,7 @@ subroutine r_member(n, a)
 contains
   subroutine bump(v)
     real, intent(inout) :: v
-    v = v + real(n)
+    v = v + 0.5 * n
   end subroutine bump
 end subroutine r_member
 """, features=['routine', 'contains', 'call'])
@@ -128,7 +128,7 @@ contains
   function twice(k) result(r)
     integer, intent(in) :: k
     real :: r
-    r = 2.0 * real(k)
+    r = 2.0 * k
   end function twice
   subroutine unused(q)
     integer, intent(inout) :: q
@@ -191,10 +191,22 @@ subroutine r_import_type(e, s)
   implicit none
   type(ext_t), intent(inout) :: e
   real(kind=jprb), intent(out) :: s
-  s = ext_fun(e%val) + real(e%idx(1), kind=jprb)
+  s = ext_fun(e%val) + e%idx(1)
   e%val = s
 end subroutine r_import_type
 """, defs=[KMOD], features=['routine', 'import', 'derived-var', 'kind', 'enrichable'])
+
+_add('r_cast', """
+subroutine r_cast(n, x, k)
+  use kmod, only: jprb
+  implicit none
+  integer, intent(in) :: n
+  real(kind=jprb), intent(out) :: x
+  integer, intent(out) :: k
+  x = real(n, kind=jprb) + real(n)
+  k = int(x)
+end subroutine r_cast
+""", defs=[KMOD], features=['routine', 'cast', 'kind', 'import'])
 
 _add('r_import_all', """
 subroutine r_import_all(e)
@@ -532,7 +544,7 @@ end module fb_mod
 ZOO = tuple(_Z)
 ZOO_BY_NAME = {e.name: e for e in ZOO}
 # quick tiers: one representative of every structural family
-QUICK_NAMES = ('r_plain', 'f_result', 'r_init', 'r_member', 'r_assoc', 'r_import_type', 'r_intf', 'm_type', 'm_two',
+QUICK_NAMES = ('r_plain', 'f_result', 'r_init', 'r_member', 'r_assoc', 'r_import_type', 'r_cast', 'r_intf', 'm_type', 'm_two',
                'm_full', 'm_bound', 'm_member', 'file_mod_and_routine', 'file_two_modules')
 ZOO_QUICK = tuple(ZOO_BY_NAME[n] for n in QUICK_NAMES)
 
